@@ -139,6 +139,18 @@ def step (line : String) : String :=
     let sorted := out.toArray.qsort (fun a b => showNats a.1 < showNats b.1) |>.toList
     "ok " ++ ";".intercalate (sorted.map fun e =>
       s!"{showNats e.1}:{if e.2.entries.isEmpty then "-" else ",".intercalate (e.2.entries.map fun x => if x.isEmpty then "e" else showNats x)}")
+  | ["hsearch", src, w0, ml, mp, flags] =>
+    -- entries, initial walk, line and cursor to match against, flags usePos/fwd/regex
+    let s0 : Hist.St := { src := (parseList src ",").map parseNats }
+    match (do
+        let s1 ← Hist.save s0
+        let s2 ← (if w0 == "0" then pure s1 else do let t ← Hist.save s1; Hist.walk t (w0.toInt?.getD 0) : Core.G Hist.St)
+        pure s2 : Core.G Hist.St) with
+    | .error e => e.show
+    | .ok s2 =>
+      let fl := flags.toList
+      let s3 := Hist.insertMatch s2 (parseNats ml) (mp.toInt?.getD 0) (fl.getD 0 '0' == '1') (fl.getD 1 '0' == '1') (fl.getD 2 '0' == '1')
+      s!"ok {showNats s3.line} {(Core.checkAppend s3.line s3.cur).pos}"
   | ["hwritef", file, line, rec] =>
     -- fileHistory.Write on a file image; `rec` is the record the real encoder produced for this block
     showNats (HistFile.writeRec (fun _ => parseNats rec) HistW.trim (parseNats file) (parseNats line))
